@@ -69,6 +69,19 @@ TCuts ==
                                    IF badCuts = {} THEN "" ELSE e.results[CHOOSE k \in badCuts : TRUE], Cardinality(badCuts)>>)
   /\ UNCHANGED <<reqs, case>>
 
+\* large files: the same demand on a sample of cut positions (every cut near both ends, around every chunk start and every
+\* multiple of 64 KiB, a stride in between)
+TSparseCuts ==
+  /\ IsEvent("scuts")
+  /\ LET e == Rec[l]
+         badCuts == {k \in DOMAIN e.at : e.at[k] < e.eof /\ ~IsErrResult(e.results[k])}
+     IN /\ Count(43, 1) /\ Count(44, Len(e.at))
+        /\ Verdict(e.full = "ok" /\ e.at_eof = "ok", <<e.case, "cut_full_file_fails", e.full, e.at_eof>>)
+        /\ Verdict(e.bytes = <<>> \/ EndOfFrames(e.bytes) = e.eof, <<e.case, "end_of_frames_differs", e.eof>>)
+        /\ Verdict(badCuts = {}, <<e.case, "cut_prefix_loaded", IF badCuts = {} THEN 0 ELSE e.at[CHOOSE k \in badCuts : TRUE],
+                                   IF badCuts = {} THEN "" ELSE e.results[CHOOSE k \in badCuts : TRUE], Cardinality(badCuts)>>)
+  /\ UNCHANGED <<reqs, case>>
+
 \* a file that does not load in full is outside the quantifier (prefixes of VALID files); a crash is still rejected
 TSkip ==
   /\ IsEvent("skip")
@@ -76,7 +89,7 @@ TSkip ==
   /\ UNCHANGED <<reqs, case>>
 
 TraceInit == l = 1 /\ reqs = <<>> /\ case = "" /\ TLCSet(RejectReg, 0) /\ TLCSet(43, 0) /\ TLCSet(44, 0) /\ TLCSet(45, 0) /\ TLCSet(46, 0)
-TraceNext == TBase \/ TRun \/ TVariant \/ TCuts \/ TSkip
+TraceNext == TBase \/ TRun \/ TVariant \/ TCuts \/ TSparseCuts \/ TSkip
 TraceSpec == TraceInit /\ [][TraceNext]_<<l, reqs, case>>
 TraceAccepted ==
   LET d == TLCGet("stats").diameter IN
